@@ -103,6 +103,10 @@ def catalogue(tk):
         out.append(("wrong-blob-size", newvec("BLOB", "DEV", vec, [one("BLOB", e1, good, size="999")]), {}, True))
         out.append(("negative-blob-size", newvec("BLOB", "DEV", vec, [one("BLOB", e1, good, size="-1")]), {}, True))
         out.append(("non-numeric-blob-size", newvec("BLOB", "DEV", vec, [one("BLOB", e1, good, size="abc")]), {}, True))
+        # no payload at all together with a size that cannot be right (the rejected value is None, not a string)
+        out.append(("empty-blob-wrong-size", newvec("BLOB", "DEV", vec, [one("BLOB", e1, None, size="5")]), {}, True))
+        out.append(("empty-blob-non-numeric-size", newvec("BLOB", "DEV", vec, [one("BLOB", e1, None, size="abc")]), {}, True))
+        out.append(("empty-blob-wrong-size-then-valid", newvec("BLOB", "DEV", vec, [one("BLOB", e1, None, size="5"), one("BLOB", "B", good)]), {(vec, "B"): [good], "required": (vec, "B")}, True))
         out.append(("missing-blob-size", newvec("BLOB", "DEV", vec, [one("BLOB", e1, good, size=None)]), {}, False))
         out.append(("missing-blob-format", newvec("BLOB", "DEV", vec, [one("BLOB", e1, good, format=None)]), {}, False))
     # message kinds a client should not send, addressed to the target property
